@@ -8,6 +8,8 @@ import (
 	"runtime/debug"
 	"strings"
 
+	"github.com/benoitkugler/webrender/backend"
+	"github.com/benoitkugler/webrender/css/parser"
 	"github.com/benoitkugler/webrender/matrix"
 )
 
@@ -447,3 +449,154 @@ func vHrefGraphs() (int, []string) {
 //@   ensures[y-mid] viewbox != nil && translate == nil && pr.yPosition == "mid" ==> 2*(translateY + vb.Y*scaleY) + vb.Height*scaleY == height
 //@   ensures[y-max] viewbox != nil && translate == nil && pr.yPosition == "max" ==> translateY + (vb.Y + vb.Height)*scaleY == height
 //@   ensures[marker] viewbox != nil && translate != nil ==> translateX == translate.x - vb.X*scaleX && translateY == translate.y - vb.Y*scaleY
+
+// ---------------------------------------------------------------------------
+// bounded stand-in (C18, C01): "cyclic references (markers, clip paths, masks) are ignored rather than
+// followed forever", for the references that are followed while DRAWING. vRefCycles parses and draws,
+// on a backend that does nothing, a document for EVERY assignment of a reference in {none, #x, #y,
+// #missing} to the content of two definitions x, y of each kind marker / clipPath / mask (16 graphs
+// per kind incl. self loops and two-cycles). A stack
+// overflow kills the process: the check then reports "enumerator did not run".
+
+type vCanvas struct{}
+
+func (vCanvas) GetBoundingBox() (left, top, right, bottom backend.Fl) {
+	return 0, 0, 10, 10
+}
+
+func (vCanvas) SetBoundingBox(left, top, right, bottom backend.Fl) {
+}
+
+func (vCanvas) OnNewStack(f func()) {
+	f()
+}
+
+func (vCanvas) Rectangle(x backend.Fl, y backend.Fl, width backend.Fl, height backend.Fl) {
+}
+
+func (vCanvas) Clip(evenOdd bool) {
+}
+
+func (vCanvas) SetAlpha(alpha backend.Fl, stroke bool) {
+}
+
+func (vCanvas) SetColorRgba(color parser.RGBA, stroke bool) {
+}
+
+func (vCanvas) SetLineWidth(width backend.Fl) {
+}
+
+func (vCanvas) SetDash(dashes []backend.Fl, offset backend.Fl) {
+}
+
+func (vCanvas) Paint(backend.PaintOp) {
+}
+
+func (vCanvas) Transform(mt matrix.Transform) {
+}
+
+func (vCanvas) GetTransform() matrix.Transform {
+	return matrix.Identity()
+}
+
+func (vCanvas) MoveTo(x backend.Fl, y backend.Fl) {
+}
+
+func (vCanvas) LineTo(x backend.Fl, y backend.Fl) {
+}
+
+func (vCanvas) CubicTo(x1, y1, x2, y2, x3, y3 backend.Fl) {
+}
+
+func (vCanvas) ClosePath() {
+}
+
+func (vCanvas) SetTextPaint(backend.PaintOp) {
+}
+
+func (vCanvas) SetBlendingMode(mode string) {
+}
+
+func (vCanvas) DrawText(text []backend.TextDrawing) {
+}
+
+func (vCanvas) AddFont(backend.Font, []byte) *backend.FontChars {
+	return &backend.FontChars{Cmap: make(map[backend.GID][]rune), Extents: make(map[backend.GID]backend.GlyphExtents)}
+}
+
+func (vCanvas) NewGroup(x, y, width, height Fl) backend.Canvas {
+	return vCanvas{}
+}
+
+func (vCanvas) DrawRasterImage(img backend.RasterImage, width, height backend.Fl) {
+}
+
+func (vCanvas) SetAlphaMask(mask backend.Canvas) {
+}
+
+func (vCanvas) DrawGradient(gradient backend.GradientLayout, width, height backend.Fl) {
+}
+
+func (vCanvas) DrawWithOpacity(opacity backend.Fl, group backend.Canvas) {
+}
+
+func (vCanvas) SetStrokeOptions(backend.StrokeOptions) {
+}
+
+func (vCanvas) SetColorPattern(backend.Canvas, backend.Fl, backend.Fl, matrix.Transform, bool) {
+}
+
+func (vCanvas) State() backend.GraphicState {
+	return vCanvas{}
+}
+
+func vRefCycles() (int, []string) {
+	debug.SetMaxStack(64 << 20)
+	targets := []string{"", "#x", "#y", "#missing"}
+	kinds := []struct{ tag, attr string }{{"marker", "marker-start"}, {"clipPath", "clip-path"}, {"mask", "mask"}}
+	n, fails := 0, []string{}
+	run := func(name, src string) {
+		n++
+		defer func() {
+			if r := recover(); r != nil && len(fails) < 5 {
+				fails = append(fails, fmt.Sprintf("%s: panic: %v", name, r))
+			}
+		}()
+		img, err := Parse(strings.NewReader(src), "", nil, nil)
+		if err != nil {
+			if len(fails) < 5 {
+				fails = append(fails, fmt.Sprintf("%s: %v", name, err))
+			}
+			return
+		}
+		img.Draw(vCanvas{}, 100, 100, nil)
+	}
+	for _, k := range kinds {
+		for _, hx := range targets {
+			for _, hy := range targets {
+				ref := func(h string) string {
+					if h == "" {
+						return ""
+					}
+					return fmt.Sprintf(` %s="url(%s)"`, k.attr, h)
+				}
+				src := fmt.Sprintf(`<svg xmlns="http://www.w3.org/2000/svg" width="10" height="10"><defs>`+
+					`<%[1]s id="x"><path d="M0,0 L1,1"%[2]s/></%[1]s><%[1]s id="y"><path d="M0,0 L2,2"%[3]s/></%[1]s>`+
+					`</defs><path d="M0,0 L5,5 L6,1"%[4]s/></svg>`, k.tag, ref(hx), ref(hy), ref("#x"))
+				run(fmt.Sprintf("%s x->%q y->%q", k.tag, hx, hy), src)
+			}
+		}
+	}
+	return n, fails
+}
+
+//@ bounded vRefCycles svg.Parse and Draw on every reference graph over two markers, two clip paths and two masks (16 graphs each incl. self loops and two-cycles): returns without panicking
+//@   props C18 C01
+
+// the text anchor of a <text> element without own text is read from its first child only when that child is
+// text (a defect found and fixed: a shape as first child was dereferenced as a nil text span)
+//@ func (*SVGImage).drawNode$1
+//@   props C18 C01
+//@   modifies anything
+//@   unclaimed call-*-pre* "drawing helpers"
+//@   assert after textAnchor#2: child != nil
